@@ -48,7 +48,11 @@ var rootSeeds = []string{
 
 var typeSeeds = []string{`1`, `"s"`, `{"o": 1}`, `[1]`, `@b`, `@a | @b`, "{\n\"r\": @a // {optional: true}\n}", `"k" // {regex: "k+"}`,
 	"{\n \"s\": @a\n}", "[@a]", "{ // {allOf: \"@b\"}\n \"t\": 1\n}", "1 // {enum: @e}", "{\n @k: @b\n}", "1 // {or: [\"@a\", \"@b\"]}",
-	"{\"o\": 1, \"p\": \"x\" // {optional: true}\n}", "\"s\" // {minLength: 1}", ``, ` `, "# only a comment"}
+	"{\"o\": 1, \"p\": \"x\" // {optional: true}\n}", "\"s\" // {minLength: 1}", ``, ` `, "# only a comment",
+	// inheritance between added types; errors far from the start of the donor's text
+	"{ // {allOf: \"@b\"}\n}", "{ // {allOf: [\"@b\", \"@o\"]}\n}",
+	"{\n\n\n\n\n\n\n\n\n\n\n\n\n\n\n\n \"k\": 1 // {min: 2}\n}", "\n\n\n\n\n\n\n\n\n\n\n\n\n\n\n\n{\n @zz: 1,\n \"u\": @zz | @a\n}",
+	"                    @zz | @a", "[\n\n\n\n\n\n\n\n\n\n\n\n 1 // {or: [{type: \"@zz\"}, \"string\"]}\n]"}
 
 var enumSeeds = []string{`[1,2]`, `["a", "b"] // c`, `[]`, "[1, /* x */ 2]", `[1,1]`, "[\n \"a\", // first\n \"b\" # second\n]",
 	`[true, false, null, 1.5, -0, "x"]`, `["a", "b"] /* c`, `[1] ###`, `[ ]`, `[1, "1", 1.0]`, `@e`, `1`, `[[1]]`, `[{"a":1}]`, ``}
